@@ -164,6 +164,16 @@ def check_aggregate(h: Harness):
             spec["shape"] = rng.choice(["list", "list", "generator", "tuple", "array"])
             h.count("aggregate:components-as-" + spec["shape"])
         pr = build_problem(spec, log, 0)
+        if spec["kind"] == "multi" and rng.random() < 0.4:
+            # the directions are re-declared after construction (the same problem object reused for a run in the other direction): what counts
+            # at an evaluation is what the problem declares THEN
+            newmins = [not m if rng.random() < 0.6 else m for m in spec["mins"]]
+            if rng.random() < 0.5:
+                pr.minimize[:] = newmins
+            else:
+                pr.minimize = list(newmins)
+            spec["mins"] = newmins
+            h.count("aggregate:directions-redeclared")
         try:
             f = pr.evaluate((0, 0))
         except Exception as e:  # noqa: BLE001
@@ -716,6 +726,36 @@ def check_weights_learnt_between_generations(h: Harness):
         h.seen(f"learnt:{trial}:{name}", nontrivial=True)
 
 
+def check_counter_with_unusable_values(h: Harness):
+    """a fitness function that returns NaN (or an inf - inf aggregate) for some programs is still a call of the fitness function: the
+    counter equals the number of invocations under both evaluators"""
+    rng = h.rng
+    for trial in range(h.n(12, 100)):
+        n = rng.randint(3, 9)
+        vals = [rng.choice([float("nan"), float("inf"), 1.0, 2.0, -3.0]) for _ in range(n)]
+        calls = []
+        multi = trial % 2 == 1
+
+        def ff(ph, calls=calls):
+            calls.append(ph[0])
+            return [vals[ph[0]], vals[ph[0]]] if multi else vals[ph[0]]
+        problem = MultiObjectiveProblem([False, True], ff) if multi else SingleObjectiveProblem(ff, minimize=trial % 4 == 0)
+        ev = SequentialEvaluator()
+        inds = [mk_ind(i, i) for i in range(n)]
+        try:
+            ev.evaluate(problem, inds[: n // 2])
+            ev.evaluate(problem, inds)
+        except Exception as e:  # noqa: BLE001
+            h.fail("SequentialEvaluator.evaluate", "raises", f"fitness values {vals}: {type(e).__name__}: {e}", {"vals": [repr(v) for v in vals]})
+            continue
+        h.count("counter-with-unusable-values")
+        h.seen(f"unusable:{[repr(v) for v in vals]}:{multi}", nontrivial=True)
+        if ev.number_of_evaluations() != len(calls) or len(calls) != n:
+            h.fail("SequentialEvaluator.evaluate", "counter-differs-from-invocations",
+                   f"{'multi' if multi else 'single'}-objective problem, fitness values {[repr(v) for v in vals]}: the fitness function was invoked {len(calls)} times for "
+                   f"{n} individuals, the evaluation counter says {ev.number_of_evaluations()}", {"vals": [repr(v) for v in vals], "multi": multi})
+
+
 def check_adaptive_gp_counter(h: Harness):
     """AdaptiveGeneticProgramming (adaptive mutation / crossover probabilities, feedback on the slice weights, a population size that
     changes): whatever its steps look at on the way, the fitness function is invoked through the evaluator -- the evaluation counter
@@ -841,6 +881,7 @@ def check_parallel_sees_current_data(h: Harness):
 def run(h: Harness):
     check_parallel_sees_current_data(h)
     check_adaptive_gp_counter(h)
+    check_counter_with_unusable_values(h)
     check_unnumbered_objectives(h)
     check_simplegp_problems(h)
     check_weights_learnt_between_generations(h)
